@@ -3549,6 +3549,9 @@ class DecVar(Vars):
 
     def evtadapt(self, scens):
 
+        if self.dro_model.var_ev_list is not None:
+            raise SyntaxError('Adaptation must be defined before the model is formulated.')
+
         if isinstance(scens, Scen):
             events = scens.series
         else:
@@ -3743,6 +3746,8 @@ class DecVarSub(VarSub):
 
     def affadapt(self, rvars):
 
+        if self.dro_model.var_ev_list is not None:
+            raise SyntaxError('Adaptation must be defined before the model is formulated.')
         if self.vtype in ['B', 'I']:
             raise ValueError('No affine adaptation for integer variables.')
         if self.dro_model is not rvars.model.top:
